@@ -119,6 +119,8 @@ def enc_token(tok, tid):
         return h + b"\r\n"
     if k == "Y":
         return bytes([ALPHA[tid]]) * tok[1]
+    if k == "U":        # a head without any framing: the body (if any) is delimited by the connection close
+        return b"HTTP/1.1 200 OK\r\nX-M: %d\r\nServer: x\r\n\r\n" % tid
     if k == "J":
         return b"garbage-%d\r\n\r\n" % tid
     if k == "Q":
@@ -132,7 +134,7 @@ def tok_str(tok, tid):
         return f"H:{tid}:{0 if tok[3] else tok[1]}:{int(bool(tok[2]))}:{int(bool(tok[3]))}"
     if k == "Y":
         return f"Y:{tid}:{tok[1]}"
-    return f"{k}:{tid}"
+    return f"{k}:{tid}"      # J, Q (model tokens) and U (oracle-only histories)
 
 
 class Sim:
@@ -176,6 +178,7 @@ class Sim:
         self.dirty_items: dict = {}     # c -> list of [reason, token id | None]
         self.exc_log: list = []
         self.keep: list = []
+        self.conn_rue: dict = {}        # c -> the current parser reads an unframed body until EOF
         self.fingerprints = [aiohttp.Fingerprint(fp) for fp in FP]
 
         class Traced(ResponseHandler):
@@ -239,12 +242,25 @@ class Sim:
         self.patch.start()
         self.task_k: dict = {}
 
+        from harness.common.loop import patched_time
+        self.ptime = patched_time(self.loop)
+        self.ptime.__enter__()
+        self.advanced = 0.0
+
         async def mk():
-            conn = Connector(force_close=bool(case.get("force_close")), resolver=aiohttp.ThreadedResolver(), use_dns_cache=False)
+            kwc = {}
+            if case.get("keepalive") and not case.get("force_close"):
+                kwc["keepalive_timeout"] = case["keepalive"]
+            conn = Connector(force_close=bool(case.get("force_close")), resolver=aiohttp.ThreadedResolver(), use_dns_cache=False, **kwc)
             conn._factory = lambda: Traced(loop=sim.loop)
             return conn, aiohttp.ClientSession(connector=conn)
 
-        self.connector, self.session = self.loop.run_until_complete(mk())
+        try:
+            self.connector, self.session = self.loop.run_until_complete(mk())
+        except BaseException:
+            self.ptime.__exit__(None, None, None)
+            self.patch.stop()
+            raise
 
     # -- helpers -----------------------------------------------------------------------------
     def spec_of_task(self):
@@ -333,6 +349,8 @@ class Sim:
         self.nparams[c] += 1
         if self.nparams[c] > 1:
             self.par_rem[c] = 0         # a new parser starts at a head (the first one replays _tail)
+        spec = self.reqs[self.req_of[self.owner[c]]] if self.req_of.get(self.owner.get(c)) is not None else {}
+        self.conn_rue[c] = not (spec.get("ws") or spec.get("rue", 1) == 0)
         self.log(f"P.{self.owner.get(c)}")
 
     def on_release(self, c, pooled):
@@ -377,6 +395,9 @@ class Sim:
                 continue
             if tok[0] == "H" and not tok[3]:
                 self.par_rem[c] = tok[1]
+            elif tok[0] == "U":
+                if self.conn_rue.get(c, True):
+                    self.par_rem[c] = 10 ** 9       # everything up to the close is body
             elif tok[0] == "Y":
                 self.par_rem[c] = max(0, self.par_rem[c] - tok[1])
             kept.append(tok)
@@ -418,6 +439,11 @@ class Sim:
             return
         p = self.prog[c]
         k = tok[0]
+        if p == "until-close":
+            return                      # (unread) close-delimited body; the connection is dirty at release anyway
+        if p is None and k == "U":
+            self.prog[c] = "until-close"
+            return
         if p is None:
             if k == "H":
                 if tok[3]:
@@ -477,7 +503,13 @@ class Sim:
             kw["server_hostname"] = SNIS[spec["sni"]]
         self.state[k] = "running"
         try:
-            resp = await self.session.get(url, **kw)
+            if spec.get("rue", 1) == 0:
+                kw["read_until_eof"] = False
+            if spec.get("ws"):
+                # a WebSocket handshake the origin never accepts: ws_connect passes read_until_eof=False
+                resp = (await self.session.ws_connect(url, **kw))._response
+            else:
+                resp = await self.session.get(url, **kw)
         except BaseException as ex:  # noqa
             self.state[k] = "done"
             self.result[k] = ("exc", type(ex).__name__)
@@ -536,6 +568,21 @@ class Sim:
             return self.send(st[1], [tuple(t) for t in st[2]])
         if op == "pclose":
             return self.pclose(st[1], st[2])
+        if op == "peof":
+            # the peer's EOF reached the transport: it is closing, connection_lost comes one loop step later
+            c = st[1]
+            if c >= len(self.trs) or self.trs[c].closed or self.protos[c].transport is None:
+                return False
+            self.mark(c, "peer-closed")
+            self.trs[c].close()
+            return True
+        if op == "advance":
+            if self.advanced + st[1] > 200:      # stay clear of the 300 s total timeout
+                return False
+            self.advanced += st[1]
+            self.loop.advance(st[1])
+            self.loop.run_until_idle()
+            return True
         if op == "cmd":
             k = st[1]
             if self.state.get(k) == "hold" and self.queues[k].empty():
@@ -568,6 +615,7 @@ class Sim:
     def close(self):
         try:
             self.patch.stop()
+            self.ptime.__exit__(None, None, None)
             with warnings.catch_warnings():
                 warnings.simplefilter("ignore")
                 self.loop.run_until_complete(self.session.close())
@@ -773,7 +821,69 @@ def key_cases():
     return out
 
 
-def random_case(rng):
+def ext_structured_cases():
+    """Histories outside the model's domain (oracle only): responses without framing, requests that do not
+    read until EOF (read_until_eof=False, failed WebSocket handshakes), the keep-alive cleanup timer with
+    several keys pooled, a peer EOF whose connection_lost is one loop step away."""
+    out = []
+    ans = [["H", 1, 0, 0], ["Y", 1]]
+    # 1. unframed response x request kind x where its close-delimited body arrives x caller
+    for kind in ({"rue": 0}, {"ws": 1}, {}):
+        for after in ("read", "hold"):
+            for body in ([["H", 2, 0, 0], ["Y", 2]], [["Y", 3]], [["H", 0, 0, 0]], []):
+                for where in ("same-read", "next-read", "after-run", "after-next-request"):
+                    reqs = [base_req(after=after, **kind), base_req(), base_req()]
+                    hist = [["req", 0], ["run"]]
+                    if where == "same-read":
+                        hist += [["data", 0, [["U"]] + body], ["run"]]
+                    elif where == "next-read":
+                        hist += [["data", 0, [["U"]]], ["data", 0, body], ["run"]]
+                    else:
+                        hist += [["data", 0, [["U"]]], ["run"]]
+                    if after == "hold":
+                        hist += [["cmd", 0, "release"], ["run"]]
+                    if where == "after-run":
+                        hist += [["data", 0, body], ["run"]]
+                    hist += [["req", 1], ["run"]]
+                    if where == "after-next-request":
+                        hist += [["data", 0, body], ["run"]]
+                    for c in (0, 1):
+                        hist += [["data", c, ans], ["run"]]
+                    hist += [["req", 2], ["run"]]
+                    for c in (0, 1, 2):
+                        hist += [["data", c, ans], ["run"]]
+                    out.append({"force_close": 0, "reqs": reqs, "hist": hist,
+                                "label": f"unframed/{kind}/{after}/{len(body)}/{where}"})
+    # 2. keep-alive cleanup with connections of several keys pooled
+    for ka in (15, 30, 6):
+        for first_survives in (0, 1):
+            for order in ((3, 4, 5), (5, 4, 3), (4, 3, 5)):
+                reqs = [base_req(host=0), base_req(host=1), base_req(port=8080),
+                        base_req(port=8080), base_req(host=1), base_req(host=0)]
+                hist = [["req", 0], ["run"], ["data", 0, ans], ["run"], ["advance", 5]]
+                for k in (1, 2):
+                    hist += [["req", k], ["run"], ["data", k, ans], ["run"]]
+                hist += [["advance", ka - 5 if first_survives else ka - 4]]
+                for k in order:
+                    hist += [["req", k], ["run"]]
+                    for c in (0, 1, 2, 3, 4):
+                        hist += [["data", c, ans]]
+                    hist += [["run"]]
+                out.append({"force_close": 0, "keepalive": ka, "reqs": reqs, "hist": hist,
+                            "label": f"cleanup/{ka}/{first_survives}/{order}"})
+    # 3. the peer's EOF put the transport into closing state; connection_lost has not run yet
+    for gap in (0, 1):
+        for after in ("read", "release"):
+            reqs = [base_req(), base_req(after=after), base_req()]
+            hist = [["req", 0], ["run"], ["data", 0, ans], ["run"]]
+            hist += [["req", 1], ["peof", 0]] if not gap else [["peof", 0], ["run"], ["req", 1]]
+            hist += [["run"], ["data", 0, ans], ["data", 1, ans], ["run"], ["req", 2], ["run"],
+                     ["data", 0, ans], ["data", 1, ans], ["data", 2, ans], ["run"]]
+            out.append({"force_close": 0, "reqs": reqs, "hist": hist, "label": f"peof/{gap}/{after}"})
+    return out
+
+
+def random_case(rng, ext=False):
     nreq = rng.randint(2, 6)
     nkeys = rng.choice([1, 1, 1, 2, 2, 3])
     keyspecs = [{}]
@@ -786,7 +896,13 @@ def random_case(rng):
         r = base_req(**rng.choice(keyspecs))
         r["after"] = rng.choice(["read", "read", "read", "hold", "hold", "release", "close"])
         if rng.random() < 0.08:
-            r["early"] = rand_tokens(rng, 0, fresh=True)[0]
+            r["early"] = rand_tokens(rng, 0, fresh=True, ext=ext)[0]
+        if ext:
+            x = rng.random()
+            if x < 0.15:
+                r["rue"] = 0
+            elif x < 0.27:
+                r["ws"] = 1
         reqs.append(r)
     hist = []
     started = 0
@@ -803,7 +919,7 @@ def random_case(rng):
                 hist.append(["run"])
         elif x < 0.62 and ntr:
             c = rng.randrange(ntr)
-            toks, rem[c] = rand_tokens(rng, rem.get(c, 0))
+            toks, rem[c] = rand_tokens(rng, rem.get(c, 0), ext=ext)
             hist.append(["data", c, toks])
             if rng.random() < 0.7:
                 hist.append(["run"])
@@ -819,13 +935,23 @@ def random_case(rng):
             hist.append(["cancel", rng.randrange(max(started, 1))])
             if rng.random() < 0.8:
                 hist.append(["run"])
+        elif ext and x < 0.93 and ntr:
+            if rng.random() < 0.7:
+                hist.append(["advance", rng.choice([1, 4, 5, 6, 9, 10, 11, 15, 16])])
+            else:
+                hist.append(["peof", rng.randrange(ntr)])
+                if rng.random() < 0.5:
+                    hist.append(["run"])
         else:
             hist.append(["run"])
     hist.append(["run"])
-    return {"force_close": int(rng.random() < 0.06), "reqs": reqs, "hist": hist}
+    case = {"force_close": int(rng.random() < 0.06), "reqs": reqs, "hist": hist}
+    if ext:
+        case["keepalive"] = rng.choice([15, 15, 10, 6, 30])
+    return case
 
 
-def rand_tokens(rng, rem, fresh=False):
+def rand_tokens(rng, rem, fresh=False, ext=False):
     """A read: mostly well-formed continuation of the peer's own framing, sometimes with surplus or damage."""
     toks = []
     n = rng.choice([1, 1, 1, 2, 2, 3, 4])
@@ -843,7 +969,9 @@ def rand_tokens(rng, rem, fresh=False):
                 toks.append(["Y", rem + rng.randint(1, 2)])    # longer than announced
                 rem = 0
         else:
-            if x < 0.70:
+            if ext and x < 0.10:
+                toks.append(["U"])
+            elif x < 0.70:
                 blen = rng.choice([0, 0, 1, 2, 3, 5])
                 close = int(rng.random() < 0.12)
                 toks.append(["H", blen, close, 0])
@@ -888,6 +1016,22 @@ def run_batch(ctx, exe, cases, suite):
     return ran
 
 
+def run_oracle_only(ctx, cases, suite):
+    """Histories outside the model's domain: only the property oracle (and harness sanity) is evaluated."""
+    ran = 0
+    for case in cases:
+        c = {k: v for k, v in case.items() if k != "label"}
+        try:
+            res = run_history(c)
+        except Exception:  # noqa
+            import traceback
+            ctx.disagreement(suite, {"case": c}, "harness crashed", traceback.format_exc()[-800:])
+            continue
+        check_case(ctx, None, c, suite, res, None)
+        ran += 1
+    return ran
+
+
 def run(ctx):
     ok, exe = build_model()
     ctx.oblige("model-runner-build", "correspondence", ok, "" if ok else exe)
@@ -898,7 +1042,8 @@ def run(ctx):
     for p in sorted(glob.glob(os.path.join(fw.VERIF, "corpus", "C06", "*.json"))):
         payload = json.load(open(p))
         corpus.append(payload.get("case", payload))
-    ran = run_batch(ctx, exe, corpus, "corpus")
+    ran = run_batch(ctx, exe, [c for c in corpus if not is_ext(c)], "corpus")
+    ran += run_oracle_only(ctx, [c for c in corpus if is_ext(c)], "corpus")
     ctx.close_suite("corpus", ran)
     st = structured_cases(ctx.quick)
     ran = run_batch(ctx, exe, st, "structured")
@@ -915,11 +1060,29 @@ def run(ctx):
         ran += run_batch(ctx, exe, rnd[i:i + 500], "random")
     ctx.sample({"suite": "random", "case": rnd[0]})
     ctx.close_suite("random", ran)
+    ext = ext_structured_cases() + [random_case(ctx.rng, ext=True) for _ in range(2000 if ctx.quick else 60000)]
+    ran = run_oracle_only(ctx, ext, "extended-oracle")
+    ctx.sample({"suite": "extended-oracle", "label": ext[0]["label"], "hist": ext[0]["hist"]})
+    ctx.close_suite("extended-oracle", ran)
+
+
+def is_ext(case):
+    if case.get("keepalive") or any(r.get("ws") or r.get("rue", 1) == 0 for r in case["reqs"]):
+        return True
+    for r in case["reqs"]:
+        if any(t[0] == "U" for t in r.get("early", [])):
+            return True
+    for st in case["hist"]:
+        if st[0] in ("advance", "peof") or (st[0] == "data" and any(t[0] == "U" for t in st[2])):
+            return True
+    return False
 
 
 def replay(ctx, case):
     ok, exe = build_model()
     c = {k: v for k, v in case.items() if k not in ("kinds", "suite", "label")}
+    if is_ext(c):
+        ok = False       # outside the model's domain: oracle only
     res = run_history(c)
     ans = fw.run_model(exe, [model_line(c, res["events"])])[0] if ok else ""
     diff, bad = compare(c, res, ans) if ok else (None, set())
